@@ -157,11 +157,11 @@ val nonempty : ch list -> bool
 
 val qlen : bool -> nat
 
-val run : nat -> bool -> mode -> ch list -> state -> result
+val run : nat -> bool -> bool -> mode -> ch list -> state -> result
 
 val init_state : state
 
-val strip : bool -> ch list -> result
+val strip : bool -> bool -> ch list -> result
 
 type rstate =
 | RCode of nat
